@@ -5,6 +5,11 @@ ROOT = os.path.dirname(os.path.dirname(os.path.abspath(__file__)))
 
 # id -> (engine, category, technique, level text, level note, design_ref)
 CHECKS = {
+ "C09": ("servlab", "exploration",
+   "runtime monitor on regenerated server+client: scripted SecurityHandler/SecuritySource, handler-invoked flag and status decided by a reference evaluation of the requirement structure",
+   "One operation per requirement structure: all 255 non-empty sets of alternatives over 3 schemes (three rotations of scheme kinds covering apiKey header/query/cookie, basic, bearer, oauth2) x all 4^n states {absent, accepted, declined, failed} exhaustively; global security with inherit/override/security:[]/anonymous alternative; wide structures over 8-32 schemes crossing the byte boundaries of the bitmask with PRNG states. Oracle: handler invoked iff some alternative has every scheme accepted (safety half only when a scheme handler failed), else 401; credentials seen by the SecurityHandler equal those sent. Second part drives the generated client with every subset of supplied schemes through a wire-level in-process transport and compares extracted with attached credentials (token-safe values must arrive identical, hostile ones identical or fail).",
+   "Credential values exclude leading/trailing blanks (not part of an HTTP field value) and ':' in user names; OAuth2 scopes are compared as sets.",
+   "DESIGN.md §2 C09"),
  "C18": ("libmon", "exploration",
    "runtime monitor with exact-value reference (big-integer mantissa/exponent numbers, unordered objects) plus direct observation of reflexivity, symmetry, transitivity on ogen's answers",
    "Groups of JSON texts (random values in several spellings: whitespace, member order, number spellings, string escapes; near-equal mutants: one leaf changed, 2^53 vs 2^53+1, 0.1 vs 0.1000000000000000000001, huge exponents, kind confusions) are compared pairwise and in triples by the real json.Equal and by an exact reference; the relation's laws are checked on ogen's own answers. A second monitor feeds enum lists to the real schema parser and expects the duplicate-enum diagnostic iff two members are the same value.",
